@@ -27,6 +27,7 @@ HOLE = 0x503000         # never mapped
 STACK_SIZE = 0x1000
 STACK_BASE = 0x1230000
 STACK_LOW = STACK_BASE - 0x1000
+GCC_BLOCK_CAP = 80
 TICK_CAP = 3000
 CP_CAP = 6000
 
@@ -1024,6 +1025,18 @@ def make_jitter(arch, backend, prog, init_regs, knobs):
     e.JitCore.jitted_block_max_size = 10000
     if backend == "gcc":
         j.jit.libs = e.build.libs_for(info["jitarch"])
+        # Cost bound: every block that is (re)translated costs a gcc run.  A schedule that thrashes a tiny block cache
+        # under self-modifying code can need hundreds of them; such a run is discarded (counted), not timed out.
+        add_block = getattr(j.jit, "add_block", None)
+        if add_block is not None:
+            count = [0]
+
+            def counted_add_block(block):
+                count[0] += 1
+                if count[0] > GCC_BLOCK_CAP:
+                    raise Discard("more than %d gcc block translations" % GCC_BLOCK_CAP)
+                return add_block(block)
+            j.jit.add_block = counted_add_block
     j.stack_size = STACK_SIZE
     j.init_stack()
     c = e.csts
